@@ -97,7 +97,7 @@ func parseTemplate(path string) ([]seg, bool) {
 func baseSegs(base string) []string {
 	var out []string
 	for _, s := range strings.Split(base, "/") {
-		if s != "" {
+		if s != "" && s != "." { // the base path is served cleaned: duplicate slashes and "." segments drop out
 			out = append(out, s)
 		}
 	}
